@@ -27,6 +27,10 @@ NAME_CLASSES = {
     "digit-first": "2fast",
     "underscore-first": "_u",
     "quote-char": 'say"hi',
+    "quote-at-end": '15"',
+    "quote-at-both-ends": '"pro" model',
+    "apostrophes": "'q'",
+    "quoted-plain": '"Alpha"',
     "keyword": "or",
     "opword": "AND",
 }
@@ -105,6 +109,44 @@ def name_model(mb: ModelBuilder, name: str, in_ctc: bool = True, as_root: bool =
     return mb.model(root, ctcs)
 
 
+def operator_trees(mb: ModelBuilder, op: str) -> list[tuple[str, AObj]]:
+    """The positions an operator can take relative to itself and to others: root over terms, over a
+    negation and a conjunction, below another operator, left- and right-nested chains of itself
+    (chains matter for formats with n-ary nodes and for non-associative operators)."""
+    n, o = mb.node, mb.op
+    return [(f"c_{op}", n(o(op), n("A"), n("B"))),
+            (f"nested_{op}", n(o(op), n(o("NOT"), n("A")), n(o("AND"), n("B"), n("C")))),
+            (f"inner_{op}", n(o("OR"), n(o(op), n("A"), n("B")), n("C"))),
+            (f"leftchain_{op}", n(o(op), n(o(op), n("A"), n("B")), n("C"))),
+            (f"rightchain_{op}", n(o(op), n("A"), n(o(op), n("B"), n("C")))),
+            (f"chain4_{op}", n(o(op), n(o(op), n(o(op), n("A"), n("B")), n("C")), n("A")))]
+
+
+POSITIONS = ("Root", "Mand", "Opt", "OrHost", "or1", "AltHost", "alt2", "Deep")
+
+
+def positions_model(mb: ModelBuilder, abstract: Iterable[str], groups: bool = True) -> AObj:
+    """One feature in each structural position (root, mandatory child, optional child, host of an
+    or-group, member of it, host of an alternative group, member, a mandatory grandchild); the
+    features named in `abstract` carry the flag. Flags must be independent of position."""
+    ab = set(abstract)
+    F = lambda nm: mb.feature(nm, is_abstract=nm in ab)  # noqa: E731
+    root = F("Root")
+    mand, opt, orh, alth = F("Mand"), F("Opt"), F("OrHost"), F("AltHost")
+    mb.relation(root, [mand], 1, 1)
+    mb.relation(root, [opt], 0, 1)
+    mb.relation(root, [orh], 1, 1)
+    mb.relation(root, [alth], 0, 1)
+    if groups:
+        mb.relation(orh, [F("or1"), F("or2")], 1, 2)
+        mb.relation(alth, [F("alt1"), F("alt2")], 1, 1)
+    else:
+        mb.relation(orh, [F("or1")], 0, 1)
+        mb.relation(alth, [F("alt2")], 1, 1)
+    mb.relation(opt, [F("Deep")], 1, 1)
+    return mb.model(root, [])
+
+
 def ctc_model(mb: ModelBuilder, roots: list[tuple[str, AObj]], names: Iterable[str] = ("A", "B", "C")) -> AObj:
     root = mb.feature("Root")
     for n in names:
@@ -176,6 +218,14 @@ class Codec:
             (f" (+{len(mine) - 1} more differences)" if len(mine) > 1 else ""),
             differences=[t for _, t in mine[:6]])
         return False
+
+    def abstract_positions(self, mb: ModelBuilder, rule: str = "FIELDS") -> None:
+        """The abstract flag round-trips in every structural position, alone and all together."""
+        for pos in POSITIONS:
+            self.report(rule, f"abstract-at:{pos}", self.roundtrip(positions_model(mb, [pos])),
+                        f"abstract flag on the feature in position {pos} only", ("abstract",))
+        self.report(rule, "abstract-at:all", self.roundtrip(positions_model(mb, POSITIONS)),
+                    "abstract flag on a feature in every position", ("abstract",))
 
     def finish_unowned(self) -> None:
         for c, t in sorted(self.unowned.items()):
